@@ -305,6 +305,82 @@ func c18E2E(res *engine.Result, c c18Case) {
 		}
 		_ = bad
 	}
+	c18Faults(res, c, secrets)
 	res.Outcome = "e2e"
 	res.Data = engine.J(map[string]interface{}{"kind": "e2e", "entries": c.Len, "node_objects": len(nodes)})
+}
+
+// c18Faults repeats the encrypted commit with every single request failed once (before taking effect, and
+// after taking effect): whatever the outcome, no stored object may contain plaintext, and what a new handle
+// can read must be correct.
+func c18Faults(res *engine.Result, c c18Case, secrets []string) {
+	ctx := context.Background()
+	// count the requests of the fault-free commit
+	run := func(k int, mode engine.FaultMode) {
+		b := engine.NewBucket()
+		h := b.Handle("enc")
+		w := engine.NewWorldOn(b)
+		defer w.Close()
+		cfg := kv.Config{
+			Storage:       &kv.S3BucketInfo{EndpointURL: "verif-kv", BucketName: "bk", Prefix: "enc"},
+			KeysLike:      "",
+			ValuesLike:    "",
+			BranchFactor:  4,
+			NodeEncryptor: kv.V1NodeEncryptor(c18Pass[c.Pass]),
+		}
+		db, err := kv.Open(ctx, h, cfg, kv.OpenOptions{}, engine.T(1))
+		if err != nil {
+			return
+		}
+		defer db.Cancel()
+		for i := 0; i < c.Len; i++ {
+			must(db.Set(ctx, engine.T(10+i), fmt.Sprintf("SECRETKEY-%04d-KEY", i), fmt.Sprintf("SECRETVALUE-%04d-VALUE", i)))
+		}
+		n := -1
+		fired := ""
+		h.Fault = func(rq *engine.Req) (engine.FaultMode, error) {
+			n++
+			if n == k {
+				fired = rq.String()
+				return mode, engine.ErrAWS500()
+			}
+			return engine.FaultNone, nil
+		}
+		_, cerr := db.Commit(ctx)
+		h.Fault = nil
+		if fired == "" {
+			return
+		}
+		res.Execs++
+		res.NontrivN++
+		where := fmt.Sprintf("e2e entries=%d passphrase#%d, fault on request #%d %s (mode %d), commit err=%v", c.Len, c.Pass, k, fired, mode, cerr)
+		for _, key := range b.Keys("enc/node/") {
+			body, _ := b.Get(key)
+			for _, s := range secrets {
+				if bytes.Contains(body, []byte(s[:8])) {
+					res.Violate("plaintext-in-stored-node-after-fault", "stored object %s contains the plaintext %q [%s]", key, s[:8], where)
+					return
+				}
+			}
+		}
+		if cerr == nil {
+			db2, err := kv.Open(ctx, h, cfg, kv.OpenOptions{ReadOnly: true}, engine.T(2))
+			if err != nil {
+				res.Violate("acknowledged-encrypted-commit-unreadable", "%v [%s]", err, where)
+				return
+			}
+			for i := 0; i < c.Len; i++ {
+				var v string
+				ok, gerr := db2.Get(ctx, fmt.Sprintf("SECRETKEY-%04d-KEY", i), &v)
+				if gerr != nil || !ok || v != fmt.Sprintf("SECRETVALUE-%04d-VALUE", i) {
+					res.Violate("acknowledged-encrypted-commit-unreadable", "entry %d reads (%q,%v,%v) after a commit that reported success [%s]", i, v, ok, gerr, where)
+					return
+				}
+			}
+		}
+	}
+	for k := 0; k < 3*c.Len+8; k++ {
+		run(k, engine.FailBefore)
+		run(k, engine.ApplyThenFail)
+	}
 }
